@@ -46,7 +46,8 @@ CONSTANTS
   Weak_DupOverwrites,        \* a duplicate chunk overwrites the stored bytes, not the sender
   Weak_RejectNotBlacklisted, \* Reject(snapshot) removes it but does not blacklist it
   Weak_FormatNotBlacklisted, \* RejectFormat removes the snapshots of the format but does not blacklist it
-  Weak_NoSyncerLevelCheck    \* only the queue remembers rejected senders (syncer.AddChunk does not ask the pool)
+  Weak_NoSyncerLevelCheck,   \* only the queue remembers rejected senders (syncer.AddChunk does not ask the pool)
+  Weak_RemovePeerClearsBlacklist \* a disconnect (RemovePeer) of a rejected peer erases its ban
 
 Nil == "nil"
 NoSnap == [h |-> 0, f |-> 0, n |-> 0, hash |-> Nil, meta |-> Nil]
@@ -218,8 +219,11 @@ SyncRet(S, why) ==
 \* reactor.go ReceiveEnvelope(SnapshotsResponse) -> syncer.AddSnapshot -> [S, added]
 XAddSnapshot(S, p, s) ==
   LET r == PoolAdd(S.pool, S.bl, p, s, MaxPerPeer) IN [S |-> [S EXCEPT !.pool = r.pool], added |-> r.added]
-\* reactor.go RemovePeer -> syncer.RemovePeer
-XRemovePeer(S, p) == [S EXCEPT !.pool = PoolRemovePeer(S.pool, p)]
+\* reactor.go RemovePeer -> syncer.RemovePeer -> snapshotPool.RemovePeer: the switch's ordinary
+\* disconnect notification, also for a peer that was rejected before (its ban must survive)
+XRemovePeer(S, p) ==
+  [S EXCEPT !.pool = PoolRemovePeer(S.pool, p),
+            !.bl.peer = IF Weak_RemovePeerClearsBlacklist THEN @ \ {p} ELSE @]
 
 \* reactor.go ReceiveEnvelope(ChunkResponse) -> syncer.AddChunk -> chunkQueue.Add.
 \* c = [h, f, i, b, s]; -> [S, res]; res: nosync | rejected | added | dup | closed | err
